@@ -711,10 +711,12 @@ def write_translated(path):
     rel, rerrors = py2lean.generate_rel(os.path.join(SRC, "serif"))
     grp, gerrors = py2lean.generate_group(os.path.join(SRC, "serif"))
     ali, aerrors = py2lean.generate_alias(os.path.join(SRC, "serif"))
-    rerrors = rerrors + gerrors + aerrors
+    rep, perrors = py2lean.generate_repr(os.path.join(SRC, "serif"))
+    rerrors = rerrors + gerrors + aerrors + perrors
     for pth, txt in ((path, text), (os.path.join(os.path.dirname(path), "TranslatedRel.lean"), rel),
                      (os.path.join(os.path.dirname(path), "TranslatedGroup.lean"), grp),
-                     (os.path.join(os.path.dirname(path), "TranslatedAlias.lean"), ali)):
+                     (os.path.join(os.path.dirname(path), "TranslatedAlias.lean"), ali),
+                     (os.path.join(os.path.dirname(path), "TranslatedRepr.lean"), rep)):
         old = open(pth).read() if os.path.exists(pth) else None
         if old != txt:
             tmp = pth + ".tmp%d" % os.getpid()
